@@ -7,6 +7,7 @@ of long-lived caller-owned objects, with up to two injected faults.  After every
                      pristine process (table built once per batch, one pristine child per op).
 """
 import collections
+import os
 import contextlib
 import io
 import math
@@ -236,6 +237,17 @@ def state_snapshot():
         globs["env.numpy.printoptions"] = digest(sorted((k, repr(v)) for k, v in np.get_printoptions().items()))
         globs["env.matplotlib.rcParams"] = digest(sorted((k, repr(v)) for k, v in mpl.rcParams.items()))
         globs["env.pandas.mode.chained_assignment"] = repr(pd.get_option("mode.chained_assignment")) if "chained_assignment" in dir(pd.options.mode) else ""
+    except Exception:
+        pass
+    try:  # state outside the interpreter: the files of the run's private directory (cwd, HOME, TMPDIR) and the environment
+        from . import farm as _farm
+
+        globs["env.files"] = digest(sorted(_farm.sandbox_listing().items()))
+        globs["env.os.environ"] = digest(sorted(_farm.sandbox_environ().items()))
+        globs["env.cwd"] = os.path.relpath(os.getcwd(), _farm.SANDBOX) if _farm.SANDBOX else ""
+        import matplotlib.pyplot as _plt
+
+        globs["env.pyplot.open_figures"] = len(_plt.get_fignums())
     except Exception:
         pass
     try:  # registries of the dependencies that pyrepseq's plotting / table code reads
